@@ -133,6 +133,10 @@ def assigns_attr(repo, ci, attr):
     return False
 
 
+def sel_label(sel):
+    return '' if sel is None else '[S_elements]' if sel else '[S_elements=False]'
+
+
 def run_pair(run, I, obj, label, wname, tname, q, owner, fn, avail, units_list, molweight, counter):
     """one finding per (class, wrapper): the unit strings and option variants that fail are listed in the text"""
     D = I.D
@@ -166,6 +170,22 @@ def run_pair(run, I, obj, label, wname, tname, q, owner, fn, avail, units_list, 
                                                        ' * T' if q in ENERGY else '') if counter[0] % 37 == 0 else None)
 
 
+def run_nomass(run, I, obj, label, wname, tname, q, owner, fn, avail, counter):
+    """a per-mass unit asked of an object that has no composition: there is no molar mass to divide by, so no number
+    can be the answer (whatever is returned would have to be twin * R / M) - the wrapper has to refuse"""
+    for u in ('J/g/K', 'kJ/kg/K'):
+        uarg = u[:-2] if q in ENERGY else u
+        t = getv(I, obj, tname, avail)[0]
+        if isinstance(t, Raised):
+            return
+        w = getv(I, obj, wname, dict(avail, units=uarg))[0]
+        counter[0] += 1
+        run.check(isinstance(w, Raised), 'TWIN.permass', '%s.%s' % (label.split('[')[0], wname), 'no composition',
+                  '%s(units=%r) of %s returns %s although the object has no composition (elements): a value per mass '
+                  'must be %s * R / (molar mass), and there is no molar mass'
+                  % (wname, uarg, label, show(w, 200), tname), owner.module, fn)
+
+
 def check(run, repo):
     run.explanation = (
         'Every dimensional getter (get_Cv/Cp/U/H/S/F/G/E and the reaction state/delta/activation forms), enumerated '
@@ -191,6 +211,7 @@ def check(run, repo):
     D = I.D
     nH, nO = D.sym('nH'), D.sym('nO')
     molw = C(aw['H']) * nH + C(aw['O']) * nO
+    nomass_seen = set()
     for label, obj, avail, hu, closed in mode_instances(I, repo):
         if label in ('BEP', 'References', 'PiecewiseCovEffect', 'LSR', 'ExtendedLSR'):
             continue
@@ -204,6 +225,36 @@ def check(run, repo):
             run.fn('%s.%s' % (owner.qual, wname))
             run_pair(run, I, obj, label, wname, tname, q, owner, fn, avail,
                      unit_variants(rkeys, thorough, per_mass=has_el), molw if has_el else None, counter)
+            # no composition: per-mass units are refused (once per wrapper definition, by an object that was built by
+            # its own constructor - it has exactly the attributes its class assigns, and ``elements`` is not one)
+            if not has_el and obj.closed and (owner.qual, wname) not in nomass_seen:
+                nomass_seen.add((owner.qual, wname))
+                run_nomass(run, I, obj, label + '[no elements]', wname, tname, q, owner, fn, avail, counter)
+    # a species-like object that inherits all seven wrappers of the base class and does carry a composition: a BEP
+    # relation standing for a transition state, built by its constructor. (Its activation form is a reaction form,
+    # molar only, section (e).)
+    rx = opaque_obj(I, 'rxn', {k: ('T', 'units', 'rev', 'state', 'P') for k in
+                               ('get_delta_E', 'get_delta_H', 'get_H_state', 'get_E_state', 'get_UoRT_state',
+                                'get_HoRT_state', 'get_SoR_state')})
+    rx.isa.add('Reaction')
+    for el, mw, tag in ((DictV({'H': nH, 'O': nO}), molw, 'elements'), (None, None, 'no elements')):
+        bep = I.construct(repo.cls('pmutt.reaction.bep.BEP'), [],
+                          {'slope': D.sym('slope'), 'intercept': D.sym('intercept'), 'descriptor': 'delta_H',
+                           'elements': el}, name='bep')
+        if isinstance(bep, Raised):
+            raise Unsupported('BEP(...) raised %s' % bep.exc)
+        n_bep = 0
+        for wname, tname, q, owner, fn in wrappers_of(repo, bep.ci):
+            if wname.endswith('_act'):
+                continue
+            n_bep += 1
+            avail = {'T': D.sym('T'), 'P': D.sym('P'), 'reaction': rx}
+            if el is not None:
+                run_pair(run, I, bep, 'BEP[%s]' % tag, wname, tname, q, owner, fn, avail,
+                         ['J/mol/K', 'J/g/K', 'kJ/kg/K'], mw, counter)
+            else:
+                run_nomass(run, I, bep, 'BEP[%s]' % tag, wname, tname, q, owner, fn, avail, counter)
+        run.floor('wrappers of a BEP relation with %s' % tag, n_bep, 7)
 
     # ---- (b) StatMech ---------------------------------------------------------
     ci = repo.cls('pmutt.statmech.StatMech')
@@ -216,15 +267,20 @@ def check(run, repo):
     attrs.update({'name': 'sp', 'elements': DictV({'H': nH, 'O': nO}), 'references': None, 'misc_models': None})
     sp = Obj('sp', ci, attrs=attrs)
     sel_opaque(sp)
-    for sel in (None, True):
+    # the entropy-of-elements switch is a boolean whose default is None: left out, switched on and switched off
+    # explicitly (False is not None - a wrapper that hands on "was it given" instead of the value shows here)
+    for sel in (None, True, False):
         avail = {'T': D.sym('T'), 'P': D.sym('P'), 'S_elements': sel, 'include_ZPE': True}
         for wname, tname, q, owner, fn in wrappers_of(repo, ci):
             if sel is None:
                 n_wrappers += 1
                 run.fn('%s.%s' % (owner.qual, wname))
+            if sel is False and 'S_elements' not in params(fn)[0]:
+                continue
             av = {k: v for k, v in avail.items() if k in params(fn)[0] or k in ('T', 'P')}
-            run_pair(run, I, sp, 'StatMech' + ('[S_elements]' if sel else ''), wname, tname, q, owner, fn, av,
-                     unit_variants(rkeys, thorough and sel is None, per_mass=True), molw, counter)
+            run_pair(run, I, sp, 'StatMech' + sel_label(sel), wname, tname, q, owner, fn, av,
+                     ['J/mol/K'] if sel is False else unit_variants(rkeys, thorough and sel is None, per_mass=True),
+                     molw, counter)
     # a second species with the same element symbols but other counts, evaluated after the first in the same
     # session: per-mass values must use its own molar mass (nothing may be remembered from the previous species)
     mH, mO = D.sym('mH'), D.sym('mO')
@@ -245,13 +301,13 @@ def check(run, repo):
     for wname, tname, q, owner, fn in wrappers_of(repo, ci):
         tfn = repo.find_method(ci, tname)[1]
         for opt, dflt in bool_options(fn):
-            if opt not in params(tfn)[0] or opt == 'verbose':
+            if opt not in params(tfn)[0]:
                 continue
             n_flips += 1
             av = {'T': D.sym('T'), 'P': D.sym('P'), opt: not dflt}
             run_pair(run, I, sp_ref, 'StatMech[references,%s=%s]' % (opt, not dflt), wname, tname, q, owner, fn, av,
                      ['J/mol/K'], molw, counter)
-    run.floor('StatMech wrapper options flipped', n_flips, 20)
+    run.floor('StatMech wrapper options flipped', n_flips, 28)
 
     # ---- (c) empirical species --------------------------------------------------
     for cname, qual in (('Nasa', 'pmutt.empirical.nasa.Nasa'), ('Nasa9', 'pmutt.empirical.nasa.Nasa9'),
@@ -276,14 +332,17 @@ def check(run, repo):
         if cname != 'Nasa':
             set_public(I, sp, *post)
         sel_opaque(sp)
-        for sel in (None, True):
+        for sel in (None, True, False):
             avail = {'T': D.sym('T'), 'P': D.sym('P'), 'S_elements': sel}
             for wname, tname, q, owner, fn in wrappers_of(repo, ci):
                 if sel is None:
                     n_wrappers += 1
                     run.fn('%s.%s' % (owner.qual, wname))
-                run_pair(run, I, sp, cname + ('[S_elements]' if sel else ''), wname, tname, q, owner, fn, avail,
-                         unit_variants(rkeys, thorough and sel is None, per_mass=True), molw, counter)
+                if sel is False and 'S_elements' not in params(fn)[0]:
+                    continue
+                run_pair(run, I, sp, cname + sel_label(sel), wname, tname, q, owner, fn, avail,
+                         ['J/mol/K'] if sel is False else unit_variants(rkeys, thorough and sel is None, per_mass=True),
+                         molw, counter)
         # an array of temperatures: element by element the same relation (T multiplies its own element)
         ranks_ = I.order.ranks
         ranks_.update({'T0': 3, 'T1': 4})
@@ -294,7 +353,7 @@ def check(run, repo):
                      {'T': arrT, 'P': D.sym('P'), 'S_elements': None}, ['J/mol/K', 'kJ/kg/K'], molw, counter)
 
     # ---- (d) reactions ------------------------------------------------------------
-    n_numopts = 0
+    n_numopts = n_nots = 0
     for cname, qual in (('Reaction', 'pmutt.reaction.Reaction'), ('ChemkinReaction', 'pmutt.reaction.ChemkinReaction'),
                         ('SurfaceReaction', 'pmutt.omkm.reaction.SurfaceReaction')):
         ci = repo.cls(qual)
@@ -333,7 +392,25 @@ def check(run, repo):
                 run_pair(run, I, rxn, lab, wname, tname, q, owner, fn, avail,
                          unit_variants(rkeys, thorough and not var.get('rev') and not var.get('act'), per_mass=False),
                          None, counter)
+        # the same reaction without a transition state (the usual case for Chemkin and surface reactions, which give
+        # the barrier a meaning of their own there): activation forms and the act option, forward and reverse
+        rxn0 = reaction(I, repo, qual, nts=0, name='rxn0')[0]
+        for wname, tname, q, owner, fn in wrappers_of(repo, ci):
+            names = params(fn)[0]
+            if not (wname.endswith('_act') or 'act' in names):
+                continue
+            variants = [{'rev': r} for r in (False, True)] if 'rev' in names else [{}]
+            if 'act' in names:
+                variants = [dict(v, act=True) for v in variants]
+            for var in variants:
+                avail = dict({'T': D.sym('T'), 'P': D.sym('P'), 'include_ZPE': True}, **var)
+                if isinstance(getv(I, rxn0, tname, avail)[0], Raised):
+                    continue        # no barrier is defined without a transition state (Reaction): nothing to compare
+                n_nots += 1
+                lab = '%s[no transition state,%s]' % (cname, ','.join('%s=%s' % kv for kv in sorted(var.items())))
+                run_pair(run, I, rxn0, lab, wname, tname, q, owner, fn, avail, ['kJ/mol/K', 'eV/K'], None, counter)
     run.floor('numeric options shared by a reaction wrapper and its twin', n_numopts, 3)
+    run.floor('activation forms of reactions without a transition state', n_nots, 8)
     # ---- (e) BEP --------------------------------------------------------------------
     I = Interp(repo)
     D = I.D
